@@ -597,6 +597,10 @@ func (c *EvalCtx) evalIndex(e *SExpr) (SV, error) {
 		return SV{}, err
 	}
 	if base.T == nil {
+		// a ghost row (SMT array)
+		if tv, ok := base.V.(TV); ok && tv.T.Sort.IsArray() && tv.T.Sort.Args[0] == idx.Sort {
+			return SV{V: TV{ts.Select(tv.T, idx)}}, nil
+		}
 		return SV{}, fmt.Errorf("%s: untyped index base", e)
 	}
 	bt := base.T
@@ -867,6 +871,9 @@ func (c *EvalCtx) havocTarget(e *SExpr) error {
 	case "ident":
 		if _, ok := ex.prog.Contracts.GhostMaps[e.Name]; ok {
 			ex.havocKey(c.st, "G:"+e.Name)
+			if e.Name == "held" || e.Name == "rheld" {
+				ex.heldHavocked = true
+			}
 			return nil
 		}
 	case "index":
@@ -878,6 +885,15 @@ func (c *EvalCtx) havocTarget(e *SExpr) error {
 				}
 				arr := ex.heapGet(c.st, "G:"+g.Name, SArray(ghostSort(g.Key), ghostSort(g.Val)))
 				ex.heapSet(c.st, "G:"+g.Name, ts.Store(arr, k, ts.Fresh("g!"+g.Name, ghostSort(g.Val))))
+				seen := false
+				for _, t := range ex.ghostTouched[g.Name] {
+					if t == k {
+						seen = true
+					}
+				}
+				if !seen {
+					ex.ghostTouched[g.Name] = append(ex.ghostTouched[g.Name], k)
+				}
 				return nil
 			}
 		}
